@@ -602,6 +602,31 @@ structure ManageExt where
   nameOK : Str → Bool × Option Err
   saveResult : Str → Option Err
 
+/-! ### cmd/keymasterd `u2fRegisterResponse`, from `checkAuth` to the save -/
+
+/-- effects: a refusal, the new registration written into the loaded profile, the registration challenge cleared, the
+profile marked as having a second factor, the profile SAVED for a user, success -/
+inductive RegEffect
+  | fail (status : Nat)
+  | addReg (reg : u2fAuthData)
+  | clearChallenge (v : Option Unit)
+  | markRegistered (v : Bool)
+  | save (user : Str)
+  | success
+deriving DecidableEq, Repr
+
+/-- externals: `checkAuth`, `IsAdminUserAndU2F` (translated separately), the JSON body decoder, the profile load
+(profile, found, FROM CACHE, error), whether a registration challenge is pending, `u2f.Register`, the clock, the save -/
+structure RegExt where
+  checkAuth : Nat → authInfo × Option Err
+  adminAndU2F : Str → Nat → Bool
+  decodeBody : Unit × Option Err
+  loadProfile : Str → Unit × Bool × Bool × Option Err
+  noChallenge : Bool
+  register : Nat × Option Err
+  now : Nat
+  saveResult : Str → Option Err
+
 /-! ### cmd/keymasterd `consumeLoginChallenge` -/
 
 /-- `localUserData`: the pending challenge of a user; the two challenge pointers are compared by identity (numbers
